@@ -34,7 +34,7 @@ CLAIMED = {
     ),
     "C09": dict(
         technique="static analysis: order-provenance dataflow (annotation-typed set/dict/sequence values with HASH taints, interprocedural summaries, sinks = emitted text / slot numbers / topological sorter / templates / ordered accessors) + who-may-write check for process-global state; since the rebuild the function-level clauses are decided on abstract values (sa/av.py: symbolic summaries of what a function computes, compared with the vetted reference value; three-valued: ok / violation / undecided)",
-        text="Decides, for all models and hash seeds at once, that no order derived from iterating a set/frozenset (or from a sort with a non-injective key) reaches an order-sensitive sink on the load->generate->save path (all ~30 set-iteration sites are enumerated and discharged), and that no function of the package writes module-level objects (history independence). Also: no public function modifies a caller-supplied argument in place (directly, through an alias, or by handing it to a package function that does), so a list or dict of options passed twice gives the same result twice. An early exit from a loop over an unordered collection may not select by visiting order (sink S9), and no function on the path draws on a per-process source (sympy.Dummy's counter, id(), hash(), uuid, random, temporary names; clocks in the text-producing modules).",
+        text="Decides, for all models and hash seeds at once, that no order derived from iterating a set/frozenset (or from a sort with a non-injective key) reaches an order-sensitive sink on the load->generate->save path (all ~30 set-iteration sites are enumerated and discharged), and that no function of the package writes module-level objects (history independence). Also: no public function modifies a caller-supplied argument in place (directly, through an alias, or by handing it to a package function that does), so a list or dict of options passed twice gives the same result twice. An early exit from a loop over an unordered collection may not select by visiting order (sink S9), and no function on the path draws on a per-process source (sympy.Dummy's counter, id(), hash(), uuid, random, temporary names; clocks in the text-producing modules). No method of the model or of a generator keeps results on the object between calls (a cached_property excepted: it has no arguments).",
         note="Receiver types come from the package's annotations (no type checker available); untyped operands are counted and assumed to be external ordered sequences. sympy/graphlib/lark are assumed deterministic given ordered inputs. myokit.py is out of scope.",
         ref="3/C09",
     ),
@@ -52,7 +52,7 @@ CLAIMED = {
     ),
     "C18": dict(
         technique="static analysis: parameter def-use / keyword-forwarding flow over the typer commands, mains and get_code; evaluation-order check of load -> generate -> write; config-key table cross-checked with docs/config.md; since the rebuild the function-level clauses are decided on abstract values (sa/av.py: symbolic summaries of what a function computes, compared with the vetted reference value; three-valued: ok / violation / undecided)",
-        text="Decides that every option a conversion command accepts reaches the dispatched main (and from there get_code / the generator / add_schemes / the formatter / the output path), per scheme which keyword arguments are passed, that the output file is touched only after generation returned and holds get_code's text unmodified with no handler around it, that an explicit --config wins, and that every documented configuration key is read with the CLI value as default into the forwarded variable. Also: the file written is the given output name itself (sibling mains agree), validate_scheme keeps one scheme per requested entry in the order given, and the backend selects its generator with unknown backends rejected. Every non-raising path of a main writes the output file, and the project's own pyproject.toml is consulted only where no --config path was given.",
+        text="Decides that every option a conversion command accepts reaches the dispatched main (and from there get_code / the generator / add_schemes / the formatter / the output path), per scheme which keyword arguments are passed, that the output file is touched only after generation returned and holds get_code's text unmodified with no handler around it, that an explicit --config wins, and that every documented configuration key is read with the CLI value as default into the forwarded variable. Also: the file written is the given output name itself (sibling mains agree), validate_scheme keeps one scheme per requested entry in the order given, and the backend selects its generator with unknown backends rejected. Every non-raising path of a main writes the output file, and the project's own pyproject.toml is consulted only where no --config path was given. A command option with a literal default uses the default of the main it is handed to.",
         note="Exit codes as seen from a shell and typer's own validation are not decided.",
         ref="3/C18",
     ),
@@ -109,7 +109,7 @@ CLAIMED.update({
     ),
     "C15": dict(
         technique="static analysis: clone-consistency and bookkeeping checks of the Myokit converter (rename sites, substitution chains, initial-value lookup, two-pass export); since the rebuild the function-level clauses are decided on abstract values (sa/av.py: symbolic summaries of what a function computes, compared with the vetted reference value; three-valued: ok / violation / undecided)",
-        text="Decides only necessary bookkeeping conditions of the converter. The main content of the property - the generated rhs equals Myokit's own evaluation - is NOT decided and cannot be decided statically; this check is claimed for the clauses named in its evidence only. Also: units on export, writer rows and unvetted printer overrides on the save-and-reload path.",
+        text="Decides only necessary bookkeeping conditions of the converter. The main content of the property - the generated rhs equals Myokit's own evaluation - is NOT decided and cannot be decided statically; this check is claimed for the clauses named in its evidence only. Also: units on export, writer rows and unvetted printer overrides on the save-and-reload path. Also recorded here: the NumPy function table names the functions of the model, Equality is printed as the exact comparison, and the writer nests a Piecewise first-pair-outermost.",
         note="Myokit is not executed; dynamics are not decided.",
         ref="3/C15",
     ),
@@ -127,7 +127,7 @@ CLAIMED.update({
     ),
     "C19": dict(
         technique="static analysis: reserved-name extraction from template skeletons / argument tables vs presence of a guard; whole-word regex check; grammar terminals; printed-text-only interpolation lint over print methods; since the rebuild the function-level clauses are decided on abstract values (sa/av.py: symbolic summaries of what a function computes, compared with the vetted reference value; three-valued: ok / violation / undecided)",
-        text="Decides the set of names the generated code uses for itself and whether a guard covers it (today none: KNOWN-FINDING), that post-processing cannot corrupt identifiers, that only the exact token `pi` is the constant, that the Myokit importer renames consistently, and that print methods only interpolate printed text (sympy's reserved-word renaming cannot be bypassed). Behaviour per identifier is not decided. Also: `t` and `time` are the time symbol of every model and `t` is never a missing variable, so the generated functions' own time argument is never re-bound from the model. Also: no run-time generated temporaries (cse / numbered_symbols / Dummy), whole-name matching in the C index functions, writer constants.",
+        text="Decides the set of names the generated code uses for itself and whether a guard covers it (today none: KNOWN-FINDING), that post-processing cannot corrupt identifiers, that only the exact token `pi` is the constant, that the Myokit importer renames consistently, and that print methods only interpolate printed text (sympy's reserved-word renaming cannot be bypassed). Behaviour per identifier is not decided. Also: `t` and `time` are the time symbol of every model and `t` is never a missing variable, so the generated functions' own time argument is never re-bound from the model. Also: no run-time generated temporaries (cse / numbered_symbols / Dummy), whole-name matching in the C index functions, writer constants. Print methods' class-level attributes do not replace sympy's reserved words, every binding `<name> = ...` in generated code is produced by the printer, and the name -> slot tables are keyed by the model's own names.",
         note="",
         ref="3/C19",
     ),
